@@ -517,6 +517,22 @@ def class_axioms(ref, classes):
     return out
 
 
+@builtin(dict)
+def _dict(ex, st, pos, named, node):
+    """dict() / dict(<str-keyed mapping>): a new dict with the same items (mappings that reach edzed are built-in dicts)"""
+    if named: raise Unsupported('dict(**kw)')
+    if not pos: return [(st, PDict(EMPTY_DICT))]
+    v, = pos
+    if isinstance(v, PDict): return [(st, PDict(v.arr))]
+    if isinstance(v, ZV) and v.kind == 'val':
+        outs = []
+        for s1, isd in ex.fork(st, Val.is_D(v.z), f'L{node.lineno}.dict_of_dict'):
+            if isd: outs.append((s1, PDict(dict_c(Val.dk(v.z)))))
+            else: raise Unsupported('dict(<non-dict value>)')
+        return outs
+    raise Unsupported(f'dict({v!r})')
+
+
 @builtin(len)
 def _len(ex, st, pos, named, node):
     v, = pos
